@@ -9,6 +9,7 @@
 #include <sstream>
 #include <sys/wait.h>
 #include <csignal>
+#include "watchdog.h"
 using namespace hsim;
 
 struct Script { std::string name; std::vector<std::vector<std::string>> ops; photon::thread* th = nullptr; };
@@ -40,10 +41,11 @@ static void* run_script(void* arg) {
     done_sem->signal(1);
     return nullptr;
 }
-static void on_alarm(int) { emit("result hung"); flush_trace(); _exit(0); }
+// the program has N s in which the machine runs it (watchdog.h): spinning or blocked in the kernel after that = hung
+static void on_verdict(const char* result) { trace += wd::g_diag; emit("%s", result); flush_trace(); _exit(0); }
 
 static int run_program(const std::vector<std::string>& lines) {
-    signal(SIGALRM, on_alarm); alarm(10);
+    wd::start(nullptr, on_verdict, 10, 1);
     init();
     photon::verif::hook = nullptr;       // only API events matter for the channel automaton
     int cap = 0;
